@@ -8,6 +8,7 @@
   `haSeats c` are the seats awarded individually to `c`, a `Tie` entry carries `tieSeats`.
 -/
 import VotelibProofs.Lemmas.HAStrict
+import VotelibProofs.Lemmas.HAUnique
 import VotelibModel.Gen.Divisor
 import Mathlib.Tactic.Ring
 import Mathlib.Tactic.NormNum
@@ -235,6 +236,17 @@ theorem ha_strict_separation (cfg : HACfg) (hd : (∀ k, 0 < cfg.div k) ∧ Stri
   have := hs c k hk1 hk2 p hp
   rw [hi.pool_q p hp, hpk] at this
   exact this
+
+/-- **Exact divisor-method solution (uniqueness).**  With a strictly increasing divisor sequence, positive votes,
+    caps at least the previous gains, no reported tie and all open seats handed out, the computed allocation is a
+    solution (caps, total, optimality) and it is the ONLY one: every allocation with these three properties equals it. -/
+theorem ha_is_the_unique_solution (cfg : HACfg) (hd : (∀ k, 0 < cfg.div k) ∧ StrictMono cfg.div)
+    (hv : ∀ p ∈ cfg.votes, 0 < p.2) (hn : (keys cfg.votes).Nodup) (hcaps : ∀ e, cfg.prevOf e ≤ cfg.capOf e)
+    (hnotie : (haRun cfg).tie = none) (hrem : (haRun cfg).rem = 0) :
+    IsSolution cfg (haSeats cfg) ∧ ∀ a, IsSolution cfg a → ∀ c, a c = haSeats cfg c := by
+  have h : CfgOK cfg := cfgOK_of_divisor cfg hd (fun p hp => le_of_lt (hv p hp)) hn
+  exact ⟨haSeats_isSolution cfg h hcaps hnotie hrem,
+    fun a ha => ha_unique cfg h (strictQ_of cfg hd.1 hd.2 hn hv) hcaps hnotie hrem a ha⟩
 
 /-- Witness for the recorded finding `C01-nonstrict-first-coef`: with `modified_first_coef d_hondt 2` the divisor
     sequence 2, 2, 3, … is not strictly increasing; party 1 is left waiting with a quotient equal to that of a seat
